@@ -20,7 +20,8 @@ from ..alg import Rat, atom_id, is_zero, fmt_rat
 from ..srcmodel import SourceModel, AnalysisError, MESH_CLASSES
 from ..arrays import AbstractRaise, R, ZERO, ONE, snap, Arr, Box, View, compare_scalar, opaque_fn
 from ..model import World, AX, DIM, atom_array, FACES
-from ..interp import ASparse, AObj, OpaqueFn
+from ..interp import ASparse, AObj, OpaqueFn, explore_paths
+from ..alg import reindex, atom_key
 from ..npmodel import _to_bool01
 from .. import facts as F
 
@@ -87,6 +88,43 @@ def expected(interp, name, x, y):
     raise AnalysisError(name)
 
 
+def path_subst(log):
+    """substitution implied by the path condition of a Fork log: a decided indicator is replaced by its truth value, an
+    equality `x - c == 0` decided true (or a bare scalar decided falsy) fixes the atom x"""
+    ind_map, fix, desc = {}, {}, []
+    for cond, d, where in log:
+        desc.append(f"{fmt_rat(cond, 3)} is {'true' if d else 'false'} @ {where.split(':')[1] if ':' in where else where}")
+        zero_of = None
+        for c, pos in ((cond, True), (1 - cond, False)):
+            ats = list(c.atoms())
+            if len(ats) == 1 and is_zero(c - Rat.atom(atom_key(ats[0]))):
+                k = atom_key(ats[0])
+                if isinstance(k, tuple) and k and k[0] == 'ind':
+                    truth = d if pos else (not d)
+                    ind_map[ats[0]] = Rat.const(1 if truth else 0)
+                    if k[1] == '==0' and truth:
+                        zero_of = k[2]
+                    break
+        else:
+            if not d:
+                zero_of = cond          # `if x:` decided falsy: x == 0
+        if zero_of is not None:
+            ats = list(zero_of.atoms())
+            if len(ats) == 1:
+                try:
+                    c, r = zero_of.coeff_of(ats[0])
+                    if c.is_const() and r.is_const() and not c.is_zero():
+                        fix[ats[0]] = -r / c
+                except ValueError:
+                    pass
+
+    def psub(r):
+        if fix:
+            r = reindex(r, fix)
+        return r.subs(ind_map) if ind_map else r
+    return psub, '; '.join(desc)
+
+
 def bc_equal_but_distinct(w, b1, b2):
     if b1 is b2 or not isinstance(b2, AObj):
         return False, 'same object'
@@ -129,72 +167,96 @@ def job(args):
         if m is None:
             raise AnalysisError(f"anchor vanished: CellVariable.{name}")
         units.add(f"cell.CellVariable.{name}")
-        kinds = ['none'] if name in UNARY else ['variable', 'scalar', 'array']
+        kinds = ['none'] if name in UNARY else ['variable', 'scalar', 'scalar=0', 'scalar=2', 'array']
         results = {}
         for kind in kinds:
-            bcA, bcB = w.boundary_conditions(name='bcA'), w.boundary_conditions(name='bcB')
-            A_, B_ = w.cell_variable('A', bcA), w.cell_variable('B', bcB)
-            if kind == 'variable':
-                other = B_
-                def oth(P):
-                    return Rat.atom(('B',) + tuple(P))
-            elif kind == 'scalar':
-                other = Rat.atom(('s',))
-                def oth(P):
-                    return Rat.atom(('s',))
-            elif kind == 'array':
-                arr = Box(atom_array(('arr',), w.N, offset=tuple(ONE for _ in w.N)))
-                arr.frozen = 'other-array'
-                other = arr
-                def oth(P):
-                    return Rat.atom(('arr',) + tuple(P))
-            else:
-                other = None
-            w.ctx.events.clear()
             construct = f"cell.CellVariable.{name}"
-            try:
-                res = w.interp.call_function(m, [A_] + ([other] if other is not None else []), self_obj=A_)
-            except AbstractRaise as e:
-                ob('O1', construct, False, f"operand kind {kind}: raises {e.exc}: {e.msg}", m.loc())
-                continue
-            if not (isinstance(res, AObj) and res.cls == 'CellVariable'):
-                ob('O1', construct, False, f"operand kind {kind}: returns {res!r}", m.loc())
-                continue
-            val = snap(res.attrs['_value'])
-            okv = True
-            det = ''
-            for P in cells:
-                x = Rat.atom(('A',) + tuple(P))
-                e = expected(w.interp, name, x, oth(P) if other is not None else None)
-                g = val.at(P)
-                if not is_zero(g - e):
-                    okv = False
-                    det = f"cell {F.cstr(P)}: got {fmt_rat(g, 6)} expected {fmt_rat(e, 6)}"
-            ob('O1', construct, okv, f"operand kind {kind}: {det or 'elementwise value as prescribed'}", m.loc())
-            results[kind] = okv
-            if okv and len(samples) < 2 and name == '__rsub__':
-                samples.append(dict(rule='O1', method=name, kind=kind, value=fmt_rat(val.at(cells[0]))))
-            muts = [e for e in w.ctx.events if e[0] == 'input-mutated']
-            ob('O3', construct, not muts, f"operand kind {kind}: writes into operand storage {muts[:2]}" if muts else f"operand kind {kind}: no operand written", m.loc())
-            # independence
-            rb = boxes_of(res)
-            ob_ = boxes_of(A_)
-            if kind == 'variable':
-                ob_.update(boxes_of(B_))
-            if kind == 'array':
-                ob_.update(boxes_of(arr))
-            shared = [k for k in rb if k in ob_]
-            ob('O4', construct + '/independent', res is not A_ and res is not other and not shared,
-               f"operand kind {kind}: result shares {shared[:3]} with its operands" if shared else f"operand kind {kind}: disjoint object graphs", m.loc())
-            okb, why = bc_equal_but_distinct(w, bcA, res.attrs.get('BCs'))
-            ob('O4', construct + '/BCs', okb, f"operand kind {kind}: boundary conditions of the result vs those of self: {why}", m.loc())
-            # ghost consistency
-            interior = Box(Arr(tuple(w.N), lambda idx: val.at(tuple(i + 1 for i in idx))))
-            try:
-                exp_g = snap(w.call('boundary', 'cellValuesWithBoundaries', interior, res.attrs['BCs']))
-                ob('O4', construct + '/ghosts', is_zero(val.at(ghost) - exp_g.at(ghost)), f"operand kind {kind}: ghost value {fmt_rat(val.at(ghost), 5)}", m.loc())
-            except AbstractRaise as e:
-                ob('O4', construct + '/ghosts', False, f"ghost recomputation raises {e.exc}", m.loc())
+
+            def run(fk, kind=kind):
+                bcA, bcB = w.boundary_conditions(name='bcA'), w.boundary_conditions(name='bcB')
+                A_, B_ = w.cell_variable('A', bcA), w.cell_variable('B', bcB)
+                arr = None
+                if kind == 'variable':
+                    other = B_
+                elif kind == 'scalar':
+                    other = Rat.atom(('s',))
+                elif kind.startswith('scalar='):
+                    other = Rat.const(int(kind[7:]))
+                elif kind == 'array':
+                    arr = Box(atom_array(('arr',), w.N, offset=tuple(ONE for _ in w.N)))
+                    arr.frozen = 'other-array'
+                    other = arr
+                else:
+                    other = None
+                w.ctx.events.clear()
+                w.interp.fork = fk
+                try:
+                    res = w.interp.call_function(m, [A_] + ([other] if other is not None else []), self_obj=A_)
+                except AbstractRaise as e:
+                    res = e
+                finally:
+                    w.interp.fork = None
+                return res, A_, B_, arr, bcA, other, [e for e in w.ctx.events if e[0] == 'input-mutated']
+
+            def oth(P, kind=kind):
+                if kind == 'variable':
+                    return Rat.atom(('B',) + tuple(P))
+                if kind == 'scalar':
+                    return Rat.atom(('s',))
+                if kind.startswith('scalar='):
+                    return Rat.const(int(kind[7:]))
+                if kind == 'array':
+                    return Rat.atom(('arr',) + tuple(P))
+                return None
+            if kind.startswith('scalar='):
+                try:
+                    expected(w.interp, name, Rat.atom(('A',) + tuple(cells[0])), oth(cells[0]))
+                except (AnalysisError, AbstractRaise, ZeroDivisionError):
+                    continue            # the data model itself has no finite value for this operand (x/0, 0**x)
+            paths = explore_paths(run) if kind == 'scalar' else [([], run(None))]
+            for log, (res, A_, B_, arr, bcA, other, muts) in paths:
+                psub, pdesc = path_subst(log)
+                ktxt = f"operand kind {kind}" + (f" on the path [{pdesc}]" if log else '')
+                if isinstance(res, AbstractRaise):
+                    ob('O1', construct, False, f"{ktxt}: raises {res.exc}: {res.msg}", m.loc())
+                    continue
+                if not (isinstance(res, AObj) and res.cls == 'CellVariable'):
+                    ob('O1', construct, False, f"{ktxt}: returns {res!r}", m.loc())
+                    continue
+                val = snap(res.attrs['_value'])
+                okv = True
+                det = ''
+                for P in cells:
+                    x = Rat.atom(('A',) + tuple(P))
+                    e = expected(w.interp, name, x, oth(P) if other is not None else None)
+                    g = val.at(P)
+                    if not is_zero(psub(g - e)):
+                        okv = False
+                        det = f"cell {F.cstr(P)}: got {fmt_rat(g, 6)} expected {fmt_rat(e, 6)}"
+                ob('O1', construct, okv, f"{ktxt}: {det or 'elementwise value as prescribed'}", m.loc())
+                results[kind if not log else kind + '/' + pdesc] = okv
+                if okv and len(samples) < 2 and name == '__rsub__':
+                    samples.append(dict(rule='O1', method=name, kind=kind, value=fmt_rat(val.at(cells[0]))))
+                ob('O3', construct, not muts, f"{ktxt}: writes into operand storage {muts[:2]}" if muts else f"{ktxt}: no operand written", m.loc())
+                # independence
+                rb = boxes_of(res)
+                ob_ = boxes_of(A_)
+                if kind == 'variable':
+                    ob_.update(boxes_of(B_))
+                if kind == 'array':
+                    ob_.update(boxes_of(arr))
+                shared = [k for k in rb if k in ob_]
+                ob('O4', construct + '/independent', res is not A_ and res is not other and not shared,
+                   f"{ktxt}: result shares {shared[:3]} with its operands" if shared else f"{ktxt}: disjoint object graphs", m.loc())
+                okb, why = bc_equal_but_distinct(w, bcA, res.attrs.get('BCs'))
+                ob('O4', construct + '/BCs', okb, f"{ktxt}: boundary conditions of the result vs those of self: {why}", m.loc())
+                # ghost consistency
+                interior = Box(Arr(tuple(w.N), lambda idx, val=val: val.at(tuple(i + 1 for i in idx))))
+                try:
+                    exp_g = snap(w.call('boundary', 'cellValuesWithBoundaries', interior, res.attrs['BCs']))
+                    ob('O4', construct + '/ghosts', is_zero(psub(val.at(ghost) - exp_g.at(ghost))), f"{ktxt}: ghost value {fmt_rat(val.at(ghost), 5)}", m.loc())
+                except AbstractRaise as e:
+                    ob('O4', construct + '/ghosts', False, f"ghost recomputation raises {e.exc}", m.loc())
         if len(results) >= 2:
             ob('O2', f"cell.CellVariable.{name}", len(set(results.values())) == 1, f"branches agree with the table: {results}", m.loc())
     # copy
@@ -245,45 +307,70 @@ def job(args):
         if m is None:
             raise AnalysisError(f"anchor vanished: FaceVariable.{name}")
         units.add(f"face.FaceVariable.{name}")
-        kinds = ['none'] if name in UNARY else ['variable', 'scalar']
+        kinds = ['none'] if name in UNARY else ['variable', 'scalar', 'scalar=0', 'scalar=2']
         results = {}
         for kind in kinds:
-            A_, B_ = w.face_variable('A'), w.face_variable('B')
-            other = B_ if kind == 'variable' else (Rat.atom(('s',)) if kind == 'scalar' else None)
-            w.ctx.events.clear()
             construct = f"face.FaceVariable.{name}"
-            try:
-                res = w.interp.call_function(m, [A_] + ([other] if other is not None else []), self_obj=A_)
-            except AbstractRaise as e:
-                # empty (unused) components make some numpy operations fail only if evaluated; report
-                ob('O1', construct, False, f"operand kind {kind}: raises {e.exc}: {e.msg}", m.loc())
-                continue
-            if not (isinstance(res, AObj) and res.cls == 'FaceVariable'):
-                ob('O1', construct, False, f"returns {res!r}", m.loc())
-                continue
-            okv, det = True, ''
-            for k, cname in enumerate(comps):
-                comp = snap(res.attrs[cname])
-                idx = tuple(w.t[j] - (0 if j == k else 1) for j in range(d))
-                x = Rat.atom(('A', AX[k]) + idx)
-                y = Rat.atom(('B', AX[k]) + idx) if kind == 'variable' else Rat.atom(('s',))
-                e = expected(w.interp, name, x, y if other is not None else None)
+
+            def yval(k, idx, kind=kind):
+                if kind == 'variable':
+                    return Rat.atom(('B', AX[k]) + idx)
+                if kind == 'scalar':
+                    return Rat.atom(('s',))
+                if kind.startswith('scalar='):
+                    return Rat.const(int(kind[7:]))
+                return None
+
+            def run(fk, kind=kind):
+                A_, B_ = w.face_variable('A'), w.face_variable('B')
+                other = B_ if kind == 'variable' else (yval(0, ()) if kind != 'none' else None)
+                w.ctx.events.clear()
+                w.interp.fork = fk
                 try:
-                    g = comp.at(idx)
-                except (AnalysisError, AbstractRaise) as ex:
-                    okv, det = False, f"component {cname}: {ex}"
+                    res = w.interp.call_function(m, [A_] + ([other] if other is not None else []), self_obj=A_)
+                except AbstractRaise as e:
+                    res = e
+                finally:
+                    w.interp.fork = None
+                return res, A_, B_, other, [e for e in w.ctx.events if e[0] == 'input-mutated']
+            if kind.startswith('scalar='):
+                try:
+                    expected(w.interp, name, Rat.atom(('A', 'x')), yval(0, ()))
+                except (AnalysisError, AbstractRaise, ZeroDivisionError):
                     continue
-                if not is_zero(g - e):
-                    okv, det = False, f"component {cname}: got {fmt_rat(g, 6)} expected {fmt_rat(e, 6)}"
-            ob('O1', construct, okv, f"operand kind {kind}: {det or 'all components as prescribed'}", m.loc())
-            results[kind] = okv
-            muts = [e for e in w.ctx.events if e[0] == 'input-mutated']
-            ob('O3', construct, not muts, f"writes into operand storage {muts[:2]}" if muts else "no operand written", m.loc())
-            ob_ = boxes_of(A_)
-            if kind == 'variable':
-                ob_.update(boxes_of(B_))
-            shared = [k for k in boxes_of(res) if k in ob_]
-            ob('O4', construct + '/independent', res is not A_ and not shared, f"shares {shared[:3]} with operands" if shared else "disjoint", m.loc())
+            paths = explore_paths(run) if kind == 'scalar' else [([], run(None))]
+            for log, (res, A_, B_, other, muts) in paths:
+                psub, pdesc = path_subst(log)
+                ktxt = f"operand kind {kind}" + (f" on the path [{pdesc}]" if log else '')
+                if isinstance(res, AbstractRaise):
+                    # empty (unused) components make some numpy operations fail only if evaluated; report
+                    ob('O1', construct, False, f"{ktxt}: raises {res.exc}: {res.msg}", m.loc())
+                    continue
+                if not (isinstance(res, AObj) and res.cls == 'FaceVariable'):
+                    ob('O1', construct, False, f"{ktxt}: returns {res!r}", m.loc())
+                    continue
+                okv, det = True, ''
+                for k, cname in enumerate(comps):
+                    comp = snap(res.attrs[cname])
+                    idx = tuple(w.t[j] - (0 if j == k else 1) for j in range(d))
+                    x = Rat.atom(('A', AX[k]) + idx)
+                    e = expected(w.interp, name, x, yval(k, idx) if other is not None else None)
+                    try:
+                        g = comp.at(idx)
+                    except (AnalysisError, AbstractRaise) as ex:
+                        okv, det = False, f"component {cname}: {ex}"
+                        continue
+                    if not is_zero(psub(g - e)):
+                        okv, det = False, f"component {cname}: got {fmt_rat(g, 6)} expected {fmt_rat(e, 6)}"
+                ob('O1', construct, okv, f"{ktxt}: {det or 'all components as prescribed'}", m.loc())
+                results[kind if not log else kind + '/' + pdesc] = okv
+                ob('O3', construct, not muts, f"{ktxt}: writes into operand storage {muts[:2]}" if muts else f"{ktxt}: no operand written", m.loc())
+                ob_ = boxes_of(A_)
+                if kind == 'variable':
+                    ob_.update(boxes_of(B_))
+                shared = [k for k in boxes_of(res) if k in ob_]
+                ob('O4', construct + '/independent', res is not A_ and res is not other and not shared,
+                   f"{ktxt}: shares {shared[:3]} with operands" if shared else f"{ktxt}: disjoint", m.loc())
         if len(results) >= 2:
             ob('O2', f"face.FaceVariable.{name}", len(set(results.values())) == 1, f"branches agree with the table: {results}", m.loc())
     ff = sm.func('face', 'faceeval')
